@@ -18,7 +18,7 @@ import re
 import traceback
 
 from .model import AnalysisError, Model, norm
-from .report import Ctx
+from .report import Ctx, load_known
 
 MAX_MUTANTS = int(os.environ.get("UBCHECK_MAX_MUTANTS", "400"))
 
@@ -290,14 +290,19 @@ def _run_one(args):
             model = Model(sources={modname: (path, src)})
             ctx = Ctx(pid, model, "thorough", quiet=True)
             mod = importlib.import_module(f"ubcheck.rules.{pid.lower()}")
+            def new():
+                # recorded known findings are on the unchanged tree as well: they say nothing about this variant
+                known = {(k["rule"], k["instance"], k.get("statement", "")) for k in load_known()
+                         if k.get("property") == pid and k.get("status") == "known"}
+                return [o for o in ctx.findings if Ctx.key(o) not in known]
             try:
                 mod.check(ctx)
             except AnalysisError as e:
-                if ctx.findings:
-                    return (op, desc, "violation", sorted({o["rule"] for o in ctx.findings}), modname)
+                if new():
+                    return (op, desc, "violation", sorted({o["rule"] for o in new()}), modname)
                 return (op, desc, "analysis-error", [str(e)[:160]], modname)
-            if ctx.findings:
-                return (op, desc, "violation", sorted({o["rule"] for o in ctx.findings}), modname)
+            if new():
+                return (op, desc, "violation", sorted({o["rule"] for o in new()}), modname)
             if ctx.errors:
                 return (op, desc, "analysis-error", [ctx.errors[0][:160]], modname)
             return (op, desc, "silent", [], modname)
